@@ -158,6 +158,40 @@ CHECKS["C20"] = dict(
     technique="TLA+ spec N2KFraming marker discipline model-checked (MC_Resync, MC_Framing); real serial client sessions validated by TLC",
 )
 
+CHECKS["C13"] = dict(
+    level="model_checking",
+    text=("TLC model-checks spec/N2KClient.tla - the client at the granularity of its suspension points (connect with lock, back-off, "
+          "adoption of the new link, cancellation of the old receive task, status callbacks that may suspend per state; receive loop; "
+          "consumer; close; a failing send; the gateway accepting, refusing, feeding, ending the stream; timers firing only when no "
+          "task is ready) - composed with the monitor N2KClientMon that states the property over boundary events; for three callback "
+          "regimes no clause ever trips, at most one receive path reads, and a quiescent unclosed client is connected and reading "
+          "(NeverStuck; this found a genuine stuck-DISCONNECTED race, since repaired). The four real clients are then run on the "
+          "virtual-time loop with one fault (end of stream, reset, garbage then end, failing write with the read side ending at once "
+          "or later, Sorry,Limited) injected at every loop step of the session and inside suspending callbacks, for gateways refusing 0 "
+          "or 3 attempts; every event log is validated by TLC against the same monitor: DISCONNECTED before the next attempt, delays "
+          "positive, non-decreasing and capped, reads only on the current link, CONNECTED plus a delivered probe frame once the gateway "
+          "has accepted for 30 s, heartbeat alive, no spinning read loop."),
+    note=("Trusted: TLC; the virtual-time loop (Python 3.12 asyncio internals) with real StreamReader and fake writer; liveness is "
+          "checked as bounded liveness at the end of each session and as NeverStuck on the model (bounded attempts)."),
+    design="5/C13",
+    technique="TLA+ model N2KClient + property monitor model-checked by TLC; event logs of fault-injected real clients validated by TLC against the monitor",
+)
+CHECKS["C14"] = dict(
+    level="model_checking",
+    text=("Same model and monitor as C13: close() is enabled in every state of the model (before connect, while the transport is "
+          "opened, in back-off, inside suspending status callbacks, next to faults and failing sends); TLC checks the C14 clauses of "
+          "the monitor (state never leaves CLOSED, no open attempt after close(), a link completed late is shut and never reported, "
+          "no equal consecutive notifications, notifications match the state, link shut and no delivery once close() returned, no "
+          "task left), ClosedFinal and AllShut. The four real clients run on the virtual-time loop with close() issued at every loop "
+          "step and at fine-grained times of four session shapes (accept at once, refuse first, open pending 2 s, refuse then "
+          "pending), followed by connect() and send(), with status callbacks that succeed, raise, suspend always or only on "
+          "CONNECTED; fault sessions with raising / suspending callbacks cover the notification clauses; every event log is "
+          "validated by TLC against the monitor."),
+    note="Trusted: as C13. 'Tasks pending' is observed 40 virtual seconds after the start of the session (beyond the retry cap).",
+    design="5/C14",
+    technique="TLA+ model N2KClient + property monitor model-checked by TLC; event logs of real clients with close() at every loop step validated by TLC",
+)
+
 NOT_YET = {
 }
 
